@@ -33,6 +33,19 @@ func evalC12(w *fw.W, s, _ string) {
 	if s == "" {
 		wantB, wantF = false, ""
 	}
+	// the re-parse gate itself: "a '#' or a '--x' comment was seen by that ANSI pass", counted by the reference scanner
+	for _, q := range []int{fNone, fSingle} {
+		if q == fSingle && strings.IndexByte(s, '\'') < 0 {
+			continue
+		}
+		is := lib.VerifSQLContext(s, q|fAnsi).Stats
+		rs := sqlRef().Context(s, refMode(q|fAnsi)).Stats
+		if (is.DDX != 0 || is.Hash != 0) != (rs.DDX != 0 || rs.Hash != 0) {
+			w.Fail("gate", fmt.Sprintf("%s pass: the reference scanner counts %d '--x' and %d '#' comments, the pass reports %d and %d: the MySQL re-reading is gated differently",
+				modeName(q|fAnsi), rs.DDX, rs.Hash, is.DDX, is.Hash))
+			return
+		}
+	}
 	b, f := lib.IsSQLi(s)
 	if b != wantB || f != wantF {
 		w.Fail("cascade", fmt.Sprintf("IsSQLi=(%v,%q) but the first firing documented context gives (%v,%q)", b, f, wantB, wantF))
@@ -107,7 +120,7 @@ func init() {
 		Rule: "every string over the SQL byte / fragment / token-class alphabets up to the completed level and every fixture cut: (A) IsSQLi = first firing element of [as-is/ANSI, as-is/MySQL*, '/ANSI**, '/MySQL*, \"/MySQL***] computed from fresh-state per-context results; " +
 			"(B) for both quotes and both dialects, reading s inside the quote gives the fingerprint and token classes of quote+s read as-is, verdicts equal unless sos/s&s; (C) on one reused scanner object every ordered pair (thorough: triple) of the six modes gives the fresh-state result incl. counters; " +
 			"non-trivial = IsSQLi true; distinct_outcomes = distinct six-mode fingerprint vectors",
-		Assumptions: []string{"the gate '#'/'--x seen' is read from the ANSI pass' own counters (hook), not re-derived from the text"},
+		Assumptions: []string{"the gate '#'/'--x seen' is read from the ANSI pass' own counters (hook) and must agree with the comment counts of the reference scanner (refsql)"},
 		Setup: func(w *fw.W) error {
 			cuts = alpha.Cuts(fixtures(), "'\"`", 2048)
 			return nil
